@@ -3,8 +3,9 @@
 
     - [json]            the tree the formatter builds; [render] = serde_json's COMPACT writer (its escape table,
                         byte for byte; floats excepted, see [render_float]);
-    - [parse]           an independent strict recursive-descent parser for the float-free compact fragment
-                        (fuel = input length; rejects raw control bytes, leading zeros, whitespace, floats);
+    - [parse]           an independent strict recursive-descent parser for compact JSON (fuel = input length; rejects raw
+                        control bytes, leading zeros, whitespace); integers are read exactly, a float token (RFC 8259
+                        fraction / exponent grammar) is recognised but not interpreted: it reads as [JFloat 0];
     - [event_value] / [span_value] / [span_key]
                         the type mapping AS IMPLEMENTED by SerdeMapVisitor (event fields) and JsonVisitor (span fields);
     - [visit_span] / [add_fields] / [add_fields_bytes]
@@ -121,6 +122,24 @@ Fixpoint render (j : json) : bytes :=
 
 Definition render_line (j : json) : bytes := render j ++ [10].   (* format_event ends with writeln!(writer) *)
 
+(** [render] with the text of finite floats left open: [pf] is any printer of f64 bit patterns (serde_json's is ryu's
+    shortest round-trip text; the model's own [render_float] is the exact expansion).  [render_with render_float = render]. *)
+Fixpoint render_with (pf : N -> bytes) (j : json) : bytes :=
+  match j with
+  | JFloat b => pf b
+  | JArr l => 91 :: join 44 (map (render_with pf) l) ++ [93]
+  | JObj l => 123 :: join 44 (map (fun kv => match kv with (k, v) => render_string k ++ 58 :: render_with pf v end) l) ++ [125]
+  | _ => render j
+  end.
+(** what a parser that does not interpret float text can say about a tree *)
+Fixpoint zero_floats (j : json) : json :=
+  match j with
+  | JFloat _ => JFloat 0
+  | JArr l => JArr (map zero_floats l)
+  | JObj l => JObj (map (fun kv => match kv with (k, v) => (k, zero_floats v) end) l)
+  | _ => j
+  end.
+
 (** * An independent strict parser (float-free compact JSON) *)
 Definition is_digit (b : N) : bool := (48 <=? b) && (b <=? 57).
 Fixpoint take_digits (s : bytes) : bytes * bytes :=
@@ -133,18 +152,45 @@ Fixpoint digits_val (acc : N) (d : bytes) : N :=
   | [] => acc
   | b :: r => digits_val (acc * 10 + (b - 48)) r
   end.
-(** digits -> value; JSON forbids leading zeros and an empty digit run; a following '.', 'e', 'E' would make it a
-    float, which this parser does not accept. *)
-Definition parse_nat (s : bytes) : option (N * bytes) :=
+(** RFC 8259 number = [ minus ] int [ frac ] [ exp ];  frac = "." 1*DIGIT;  exp = ("e" / "E") [ "+" / "-" ] 1*DIGIT.
+    After the integer digits: [Some (false, rest)] no fraction / exponent follows (an integer), [Some (true, rest)] a
+    well-formed fraction and/or exponent was consumed (a float token), [None] malformed. *)
+Definition scan_digits1 (s : bytes) : option bytes :=
+  let (d, r) := take_digits s in match d with [] => None | _ :: _ => Some r end.
+Definition scan_exp (s : bytes) : option bytes :=
+  match s with
+  | c :: r => if (c =? 43) || (c =? 45) then scan_digits1 r else scan_digits1 s
+  | [] => None
+  end.
+Definition scan_float_tail (r : bytes) : option (bool * bytes) :=
+  match r with
+  | c :: r1 =>
+      if c =? 46 then
+        match scan_digits1 r1 with
+        | Some r2 =>
+            match r2 with
+            | e :: r3 => if (e =? 101) || (e =? 69) then option_map (pair true) (scan_exp r3) else Some (true, r2)
+            | [] => Some (true, [])
+            end
+        | None => None
+        end
+      else if (c =? 101) || (c =? 69) then option_map (pair true) (scan_exp r1)
+      else Some (false, r)
+  | [] => Some (false, [])
+  end.
+(** digits -> [Some n] (an integer) or [None] (a float token, whose value this parser does not interpret) and the rest;
+    JSON forbids leading zeros and an empty digit run. *)
+Definition parse_num (s : bytes) : option (option N * bytes) :=
   let (d, r) := take_digits s in
   match d with
   | [] => None
   | x :: t =>
       if (x =? 48) && negb (match t with [] => true | _ => false end) then None
       else
-        match r with
-        | c :: _ => if (c =? 46) || (c =? 101) || (c =? 69) then None else Some (digits_val 0 d, r)
-        | [] => Some (digits_val 0 d, r)
+        match scan_float_tail r with
+        | Some (false, r') => Some (Some (digits_val 0 d), r')
+        | Some (true, r') => Some (None, r')
+        | None => None
         end
   end.
 
@@ -267,8 +313,18 @@ Fixpoint parse_value (fuel : nat) (s : bytes) : option (json * bytes) :=
           else if b =? 123 then
             if starts_with 125 r then Some (JObj [], tl r)
             else match parse_members (parse_value f) f r with Some (l, r') => Some (JObj l, r') | None => None end
-          else if b =? 45 then match parse_nat r with Some (n, r') => Some (JInt (- Z.of_N n), r') | None => None end
-          else if is_digit b then match parse_nat s with Some (n, r') => Some (JInt (Z.of_N n), r') | None => None end
+          else if b =? 45 then
+            match parse_num r with
+            | Some (Some n, r') => Some (JInt (- Z.of_N n), r')
+            | Some (None, r') => Some (JFloat 0, r')           (* a float token: value not interpreted *)
+            | None => None
+            end
+          else if is_digit b then
+            match parse_num s with
+            | Some (Some n, r') => Some (JInt (Z.of_N n), r')
+            | Some (None, r') => Some (JFloat 0, r')
+            | None => None
+            end
           else None
       end
   end.
